@@ -37,6 +37,8 @@ hmod!(pub(crate) c06, "c06.rs");
 #[cfg(not(feature = "shuttle"))]
 hmod!(pub(crate) c07, "c07.rs");
 #[cfg(not(feature = "shuttle"))]
+hmod!(pub(crate) c07b, "c07b.rs");
+#[cfg(not(feature = "shuttle"))]
 hmod!(pub(crate) c08, "c08.rs");
 #[cfg(not(feature = "shuttle"))]
 hmod!(pub(crate) c08b, "c08b.rs");
